@@ -157,6 +157,14 @@ def main(argv=None):
     for key, n in sorted(known_hit.items()):
         lines.append('KNOWN-FINDING: property=%s %s [%s; %d executions this run]'
                      % (prop, known[key]['what'], key, n))
+    dump = os.environ.get('VERIF_DUMP_WITNESSES')
+    if dump:       # (tooling: every kept witness, listed findings included, as replayable files)
+        os.makedirs(dump, exist_ok=True)
+        seen = {}
+        for w in witnesses:
+            seen[w['key']] = seen.get(w['key'], 0) + 1
+            with open(os.path.join(dump, '%s-%s-%d.json' % (prop, w['key'].replace(':', '_')[:60], seen[w['key']])), 'w') as fh:
+                json.dump(w, fh, indent=1)
     replay_paths = []
     if violations:
         os.makedirs(os.path.join(HOME, 'replays'), exist_ok=True)
@@ -180,6 +188,8 @@ def main(argv=None):
                    worst_observed_ratio_vs_threshold=maxima,
                    monitor_events=monitor,
                    known_findings_matched={k: v for k, v in known_hit.items()},
+                   known_finding_examples={k: next((dict(case=w.get('case'), observed=w.get('observed'), expected=w.get('expected'))
+                                                    for w in witnesses if w['key'] == k), None) for k in known_hit},
                    unlisted_rejections={k: v for k, v in violations.items()},
                    inconclusive_reasons=inconclusive[:10],
                    verdict=('violated' if violations else 'inconclusive' if inconclusive else 'held'),
